@@ -7,8 +7,10 @@ import (
 	ike "github.com/free5gc/ike"
 	"github.com/free5gc/ike/message"
 	"github.com/free5gc/ike/security"
+	"github.com/free5gc/ike/security/dh"
 	"github.com/free5gc/ike/security/encr"
 	"github.com/free5gc/ike/security/integ"
+	"github.com/free5gc/ike/security/prf"
 
 	"verif/mc/engine"
 	"verif/mc/ref"
@@ -24,6 +26,7 @@ type c17Case struct {
 	Op    int    `json:"op"`
 	Tier  string `json:"tier"`
 	Deep  int    `json:"long_run_step,omitempty"` // > 0: the op is step Deep of the long linear run (the alphabet applied round after round to one object)
+	From  []int  `json:"rekeyed_from,omitempty"`  // {suite, prf}: the object was keyed under that suite and used before it was keyed under Suite/PRF
 }
 
 type c17Op struct {
@@ -43,8 +46,11 @@ func c17Msgs() []ref.Msg {
 }
 
 func c17Ops(si, prfIdx int, thorough bool) []c17Op {
-	ks := univ.MakeKeySet(si, prfIdx, 2)
-	other := univ.MakeKeySet(si, prfIdx, 3)
+	return c17OpsKS(univ.MakeKeySet(si, prfIdx, 2), univ.MakeKeySet(si, prfIdx, 3), thorough)
+}
+
+// c17OpsKS: the op alphabet for an SA that holds the keys of ks (other: an unrelated key set of the same suite).
+func c17OpsKS(ks, other univ.KeySet, thorough bool) []c17Op {
 	msgs := c17Msgs()
 	var ops []c17Op
 	protect := func(mi int, initiator bool, stream uint64) c17Op {
@@ -209,12 +215,16 @@ func init() {
 		ID:    "C17",
 		Level: "model_checking",
 		Rule: "explicit-state search over one real IKESAKey object per suite (9 suites; thorough: × 3 PRFs): ops = protect as either role (messages × IV scripts), unprotect genuine messages of both directions (header parsed or not), unprotect tampered ciphertext / tampered ICV / tampered header, truncated, short SK body, garbage, reflected and cross-key messages, derive Child SAs (configurations × nonces) — 17 ops (quick) / 28 ops (thorough); state = canonical dump of the whole SA object graph incl. the hash and cipher internals; successors by replay from a fresh object; search to closure. " +
-			"Oracle on every transition: the op's behavioural outcome (protected datagram accepted and read by the independent peer, decoded projection, error-ness, child keys) equals its outcome on a freshly built SA with the same keys; the fresh outcomes are validated once against the reference (protected bytes accepted by the independent peer, child keys = RFC). distinct_nontrivial = distinct (state, op) transitions compared",
+			"Oracle on every transition: the op's behavioural outcome (protected datagram accepted and read by the independent peer, decoded projection, error-ness, child keys) equals its outcome on a freshly built SA with the same keys; the fresh outcomes are validated once against the reference (protected bytes accepted by the independent peer, child keys = RFC). Re-keyed objects: for every suite × PRF, an object keyed by GenerateKeyForIKESA under every other suite × PRF (26), used (9 ops), keyed again under this suite, then the whole alphabet in sequence — each outcome equals the outcome on an object keyed once with the same inputs (keys validated against the reference derivation by the independent peer). distinct_nontrivial = distinct (state, op) transitions compared",
 		Assumptions: []string{"closure of the concrete state space covers histories of every length over the op alphabet, including the 64 of the quantifier"},
 		Run:         runC17,
 		Replay: func(c *engine.Ctx, raw json.RawMessage) {
 			var cs c17Case
 			unmarshalCase(raw, &cs)
+			if len(cs.From) == 2 {
+				c17Rekeyed(c, cs.From[0], cs.From[1], cs.Suite, cs.PRF)
+				return
+			}
 			ops := c17Ops(cs.Suite, cs.PRF, cs.Tier == "thorough")
 			if cs.Deep > 0 {
 				fresh := make([]string, len(ops))
@@ -296,6 +306,14 @@ func runC17(c *engine.Ctx) {
 			c.Traces += res.Transitions
 			c.Count(fmt.Sprintf("states/suite%d/prf%d", si, prfIdx), int64(res.States))
 			c17Long(c, si, prfIdx, ops, fresh, 0)
+			// the object was keyed before under another suite (every other suite × PRF), used, and keyed again
+			for fsi := 0; fsi < 9; fsi++ {
+				for fp := 0; fp < 3; fp++ {
+					if fsi != si || fp != prfIdx {
+						c17Rekeyed(c, fsi, fp, si, prfIdx)
+					}
+				}
+			}
 			if res.Closed {
 				c.Count("closed_searches", 1)
 				c.Count("closure_depth_sum", int64(res.Depth))
@@ -359,6 +377,72 @@ func c17Long(c *engine.Ctx, si, prfIdx int, ops []c17Op, fresh []string, stopAt 
 			}
 		}
 	}
+}
+
+// c17Keyed keys sa (nil: a new object) under the suite through GenerateKeyForIKESA, the way a caller does, and
+// returns the key set the RFC prescribes for those inputs.
+func c17Keyed(sa *security.IKESAKey, si, prfIdx, salt int) (*security.IKESAKey, univ.KeySet, error) {
+	s, p := ref.Suites()[si], ref.PRFs[prfIdx]
+	if sa == nil {
+		sa = &security.IKESAKey{}
+	}
+	sa.DhInfo = dh.StrToType("DH_2048_BIT_MODP")
+	sa.EncrInfo = encr.StrToType(univ.EncrName(s.EncrKeyLen))
+	sa.IntegInfo = integ.StrToType(univ.IntegName(s.Integ))
+	sa.PrfInfo = prf.StrToType(univ.PRFName(p))
+	nonce, secret := univ.Pat(64, 300+salt), univ.Pat(256, 301+salt)
+	spiI, spiR := uint64(0x1122334455667788)+uint64(salt), uint64(0x8877665544332211)^uint64(salt)
+	ks := univ.KeySet{Suite: s, SuiteIdx: si, PRFIdx: prfIdx, Pattern: -1, K: ref.DeriveIKE(p, s.Integ, s.EncrKeyLen, nonce, secret, spiI, spiR)}
+	var err error
+	if pi := engine.Catch(func() { err = sa.GenerateKeyForIKESA(nonce, secret, spiI, spiR) }); pi != nil {
+		return nil, ks, fmt.Errorf("panic %s", pi.Sig())
+	}
+	return sa, ks, err
+}
+
+// c17Rekeyed: one key object is keyed under suite (fsi, fp), used, then keyed under (si, prfIdx) — a retry of
+// IKE_SA_INIT after the negotiation changed, an object taken from a pool. Every op of the alphabet, applied one
+// after the other to that object, must give what it gives on an object that was keyed once with the same inputs.
+func c17Rekeyed(c *engine.Ctx, fsi, fp, si, prfIdx int) {
+	cs := c17Case{Suite: si, PRF: prfIdx, From: []int{fsi, fp}, Tier: c.Tier}
+	once, ks, err := c17Keyed(nil, si, prfIdx, 7)
+	if err != nil {
+		c.Violate("rekeyed/derive-error", errStr(err), cs)
+		return
+	}
+	_ = once
+	other := ks
+	other.K = ref.DeriveIKE(ref.PRFs[prfIdx], ks.Suite.Integ, ks.Suite.EncrKeyLen, univ.Pat(32, 77), univ.Pat(128, 78), 5, 6)
+	ops := c17OpsKS(ks, other, false)
+	obj, fks, err := c17Keyed(nil, fsi, fp, 11)
+	if err != nil {
+		c.Violate("rekeyed/derive-error", errStr(err), cs)
+		return
+	}
+	for _, op := range c17OpsKS(fks, fks, false)[:9] { // the object is used under its first keys
+		c17Apply(op, obj)
+	}
+	if _, _, err = c17Keyed(obj, si, prfIdx, 7); err != nil {
+		c.Violate("rekeyed/derive-error", "second GenerateKeyForIKESA on a used object: "+errStr(err), cs)
+		return
+	}
+	for oi, op := range ops {
+		f, _, _ := c17Keyed(nil, si, prfIdx, 7)
+		want := c17Apply(op, f)
+		if oi < 4 && (len(want) < 16 || want[:16] != "accepted by peer") {
+			c.Violate("fresh/protect-fails", op.name+" on an object keyed once by GenerateKeyForIKESA: "+trs(want), cs)
+			return
+		}
+		got := c17Apply(op, obj)
+		c.Evals++
+		c.Transitions++
+		if got != want {
+			c.Violate("history-dependent/rekeyed-object/"+c17Class(op.name), fmt.Sprintf("object keyed under %v / %s, used, then keyed under %v / %s: %s gives %s, on an object keyed once %s",
+				ref.Suites()[fsi], ref.PRFs[fp].Digest, ks.Suite, ref.PRFs[prfIdx].Digest, op.name, trs(got), trs(want)), cs)
+			return
+		}
+	}
+	c.Count("rekeyed_objects_checked", 1)
 }
 
 func histNames(ops []c17Op, h []int) []string {
